@@ -1,16 +1,18 @@
 import NucsModel.Engine.Heuristics
+import NucsModel.Engine.GolombCons
 /-!
   Search: shaving (nucs/solvers/shaving_consistency_algorithm.py), `solve_one`, the `solve()`
   generator, `optimize`, `reset`, `get_solution`  (nucs/solvers/backtrack_solver.py, solver.py).
 -/
 namespace Nucs
 
-inductive ConsAlg | bc | shaving
+inductive ConsAlg | bc | shaving | golomb
 deriving DecidableEq, Repr, Inhabited
 
 def ConsAlg.ofName : String → Option ConsAlg
   | "bound_consistency_algorithm" => some .bc
   | "shaving_consistency_algorithm" => some .shaving
+  | "golomb_consistency_algorithm" => some .golomb
   | _ => none
 
 structure Config where
@@ -88,6 +90,7 @@ def consPass (P : Problem) (cfg : Config) (s : State) : Except EngErr (BcStatus 
   match cfg.cons with
   | .bc => bcPass P s
   | .shaving => shavingPass P cfg.decision s
+  | .golomb => golombPass P cfg.decision s
 
 /-- get_solution: value of every variable -/
 def getSolution (P : Problem) (D : Box) : List Int := P.vars.map (fun v => (getDom D v.1).1 + v.2)
